@@ -1001,7 +1001,8 @@ func c12Placeholders(c *Ctx, r *Report, rule string) {
 			var wrapper ssa.Value
 			for _, o := range origins(ci.Common().Args[0], sliceOpts{}) {
 				if call, ok := o.V.(*ssa.Call); ok && strings.HasSuffix(calleeID(call), "layer4.(*Connection).Wrap") && len(call.Call.Args) == 2 {
-					for _, o2 := range origins(call.Call.Args[1], sliceOpts{}) {
+					// (through the package's helpers that pick the connection to hand on from their arguments)
+					for _, o2 := range origins(call.Call.Args[1], sliceOpts{throughCalls: true}) {
 						if strings.Contains(typeStr(o2.V.Type()), "proxyprotocol.Conn") {
 							wrapper = o2.V
 						}
